@@ -137,22 +137,26 @@ func (c *callStateCache) get(callID string, auth *AuthContext) *resolvedCall {
 	return entry.call
 }
 
-func (c *callStateCache) put(callID string, auth *AuthContext, call *resolvedCall) {
+// put caches call under (callID, caller). createdAt is the CreatedAt of the
+// call token the entry stands in for: the entry expires when that token does,
+// so a hit can never outlive the token a cold instance would refuse.
+func (c *callStateCache) put(callID string, auth *AuthContext, call *resolvedCall, createdAt int64) {
 	if c == nil || c.max <= 0 {
 		return
 	}
 	key := callID + "\x00" + callStateIdentity(auth)
+	expiresAt := time.Unix(createdAt, 0).Add(c.ttl)
 	c.mu.Lock()
 	defer c.mu.Unlock()
 	if el, ok := c.entries[key]; ok {
 		el.Value.(*callStateEntry).call = call
-		el.Value.(*callStateEntry).expiresAt = time.Now().Add(c.ttl)
+		el.Value.(*callStateEntry).expiresAt = expiresAt
 		c.order.MoveToFront(el)
 		return
 	}
 	el := c.order.PushFront(&callStateEntry{
 		key:       key,
-		expiresAt: time.Now().Add(c.ttl),
+		expiresAt: expiresAt,
 		call:      call,
 	})
 	c.entries[key] = el
@@ -451,7 +455,7 @@ func (h *HttpServer) packCallToken(callID string, outputSchema *arrow.Schema, au
 	}
 	// Warm the cache with the values we already hold, so this stream's first
 	// continuation does not have to open the token it was just handed.
-	h.callStates.put(callID, auth, &resolvedCall{SchemaIPC: data.SchemaIPC, StreamID: streamID})
+	h.callStates.put(callID, auth, &resolvedCall{SchemaIPC: data.SchemaIPC, StreamID: streamID}, data.CreatedAt)
 	return token, nil
 }
 
@@ -516,7 +520,7 @@ func (h *HttpServer) resolveCall(cursor *cursorTokenData, callToken []byte, auth
 	}
 
 	got := &resolvedCall{SchemaIPC: data.SchemaIPC, StreamID: data.StreamID}
-	h.callStates.put(cursor.CallID, auth, got)
+	h.callStates.put(cursor.CallID, auth, got, data.CreatedAt)
 	return got, nil
 }
 
